@@ -31,7 +31,7 @@ var Families = []string{
 	"json", "json_trunc", "json_bad", "geojson", "har", "gltf", "json_deep", "json_nest", "json_wide",
 	"ndjson", "ndjson_bad", "csv", "csv_ragged", "csv_big", "tsv",
 	"png", "gif", "pdf", "zip", "docx", "ole", "elf", "gzip", "random", "empty",
-	"shebang", "svg", "rtf", "srt", "vcard",
+	"shebang", "svg", "rtf", "srt", "vcard", "bom8",
 }
 
 // Tag classifies what a detection of the input does to recycled state.
@@ -102,6 +102,11 @@ var Tails = [][]byte{
 	[]byte("\n\"unterminated,,,\n1,2,3,4,5,6,7\n"),
 	[]byte("\xff\xfe\xfd binary \x00 tail"),
 	[]byte(",\"type\":\"Feature\"}"),
+	{0xA9, 0xA0, ' ', 'x'},        // UTF-8 continuation bytes right after the cut
+	{0x85, 0x9F, 'z'},             // C1 range / continuation
+	{0xC3},                        // a lead byte whose continuation is missing
+	[]byte("\n<svg xmlns=\"x\">"), // a late marker
+	[]byte("\xef\xbb\xbf"),
 }
 
 // Bytes materialises the input.
@@ -304,6 +309,12 @@ func (in Input) base() []byte {
 		b[0] = 0x01 // keep it binary and free of known magic numbers
 		b[1] = 0x02
 		return b
+	case "bom8":
+		// UTF-8 byte-order mark, optional white space, then lower/upper-case markup or text
+		bodies := []string{"<html><head><meta charset=\"iso-8859-5\"></head><body>x</body></html>", "<?xml version=\"1.0\"?><a/>", "plain text after a mark",
+			"<!doctype html><title>t</title>", "{\"a\":1}", "<HTML><BODY>upper</BODY></HTML>", "<div>fragment</div>", "<script>var x</script>"}
+		ws := []string{"", " ", "\n\t ", "\r\n"}
+		return []byte("\xef\xbb\xbf" + ws[p%len(ws)] + bodies[v%len(bodies)] + string(textN(clamp(n, 0, 1<<14), in.Seed)))
 	case "shebang":
 		ls := []string{"#!/usr/bin/env python\nprint('x')\n", "#!/usr/bin/perl\nprint 1;\n", "#!/usr/bin/lua\nprint(1)\n", "#!/usr/bin/env node\nconsole.log(1)\n"}
 		return append([]byte(ls[v%len(ls)]), textN(clamp(n, 0, 1<<16), in.Seed)...)
